@@ -9,6 +9,8 @@ Line protocol of the C20 (lock order / lockset) correspondence:
   edges                                → size of the expected table
   access <what> <func> <r|w> n l1 … ln → ok / bad: lockset rule of <what> on the must-held set
                                          (unknown <what> → bad-op)
+  reasonstr <reason type> <notification|nil> <len data>   → total  (String() / API conversion of a
+  statestr <v>                                              constructible reason / state value never panic)
   handoff <spawner> <goroutine> <chan> <cap> <blocking sends> <cancellable sends>
                                        → ok / bad: a joined goroutine's blocking sends fit the buffer
 -/
@@ -39,6 +41,8 @@ def step (_ : Unit) (ts : List String) : Unit × List String :=
     | none => ((), ["bad-op"])
   | ["handoff", _spawner, _gor, _ch, cap, sends, _cancellable] =>
     ((), [if Handoff.handoffOk (nat! cap) (nat! sends) then "ok" else "bad"])
+  | ["reasonstr", _name, _kind, _data] => ((), ["total"])
+  | ["statestr", _v] => ((), ["total"])
   | [] => ((), [])
   | _ => ((), ["bad-op"])
 
